@@ -1,6 +1,7 @@
 (* C20 - B-tree zone flags, delegation index and bounds are a function of zone content. *)
 From DV Require Import Base.Prelude Model.NameM Model.BTZoneM.
-From DV Require Import Proofs.BTZoneOrder Proofs.BTZoneList Proofs.BTZoneSpec Proofs.BTZoneInv Proofs.BTZoneMain.
+From DV Require Import Proofs.BTZoneOrder Proofs.BTZoneList Proofs.BTZoneSpec Proofs.BTZoneInv Proofs.BTZoneMain
+     Proofs.BTZoneBounds3 Proofs.BTZoneValid.
 Open Scope Z_scope.
 
 (* After any history of transactions (replacement loads, adds, replaces, deletes by name, type or
@@ -28,6 +29,33 @@ Theorem step_fails_only_in_validation : forall c v o,
 Proof. exact tstep_fails_only_in_validation. Qed.
 Print Assumptions step_fails_only_in_validation.
 
+(* For every query name the zone accepts, bounds() on a committed version that has an apex node
+   returns: the nearest visible (non-glue) predecessor-or-self, the nearest visible successor
+   (None when there is none), the longest suffix of the query that is at or above a visible name
+   (a node or an empty non-terminal), whether the left bound equals the query, and whether the
+   query is at or below a delegation point. *)
+Theorem bounds_eq_spec : forall c h q0 q,
+    history_ok c h -> is_absolute (c_origin c) = true ->
+    In (apexkey c) (keys (z_nodes (exec c h))) ->
+    validate_name c q0 = Ok q -> validk c (ekey q) ->
+    exists b, bounds_v c (exec c h) q0 = Ok b /\ bounds_spec c (z_nodes (exec c h)) q b.
+Proof. exact bounds_eq_spec_hist. Qed.
+Print Assumptions bounds_eq_spec.
+
+(* dns.zone._validate_name hands the version names at or beneath the apex with the zone's
+   relativity, for every Name (only the last label may be empty) and every absolute origin:
+   the hypothesis history_ok / validk of the theorems above holds for all real callers. *)
+Theorem validate_name_valid : forall c n,
+    is_absolute (c_origin c) = true -> wf_labels n -> name_ok c n.
+Proof. exact validate_valid. Qed.
+Print Assumptions validate_name_valid.
+
+Theorem names_of_callers_ok : forall c h,
+    is_absolute (c_origin c) = true ->
+    Forall (fun t => Forall (fun o => wf_labels (top_name o)) (t_ops t)) h -> history_ok c h.
+Proof. exact wf_history_ok. Qed.
+Print Assumptions names_of_callers_ok.
+
 (* ---- non-vacuity: a relativized zone with nested cuts b > a.b > q.z.a.b, loaded inner cut first,
         then the outer cut is removed in a second transaction ---- *)
 Definition ex_cfg := mkCfg true [[101;120]; []].   (* origin "ex." *)
@@ -49,3 +77,21 @@ Example ex_result :
     [([], 1); ([lb], 0); ([la; lb], 2); ([lz; la; lb], 4); ([lq; lz; la; lb], 4)]
   /\ map fst (z_delegs (exec ex_cfg ex_h)) = [[la; lb]].
 Proof. vm_compute. split; reflexivity. Qed.
+
+Example ex_apex_present : In (apexkey ex_cfg) (keys (z_nodes (exec ex_cfg ex_h))).
+Proof. vm_compute. auto. Qed.
+
+Example ex_origin_absolute : is_absolute (c_origin ex_cfg) = true.
+Proof. reflexivity. Qed.
+
+(* z.a.b0 sorts after the glue beneath a.b: left is the cut a.b, right is none, the closest
+   encloser is the origin, not at or below a delegation *)
+Example ex_bounds :
+  bounds_v ex_cfg (exec ex_cfg ex_h) [lz; la; [98; 48]] =
+  Ok (mkBounds [la; lb] None [] false false)
+  /\ bounds_v ex_cfg (exec ex_cfg ex_h) [lb; lz; la; lb] =
+  Ok (mkBounds [la; lb] None [la; lb] false true).
+Proof. vm_compute. split; reflexivity. Qed.
+
+Example ex_wf : wf_labels [lb; [101;120]; []] /\ wf_labels [lq; lz; la; lb].
+Proof. split; intros l Hl; cbn in Hl; intuition (subst; discriminate). Qed.
